@@ -351,19 +351,13 @@ theorem filterMap_fastEv_below (s : FState) (h : Blk) (c : Cur) (l : List Entry)
   unfold fastEv
   simp [hl e he]
 
-/-- **Resuming from a New cursor on the hub's chain equals never having disconnected — for every hub state that
-    satisfies the forkable invariant** (pending chain `P`): when the cursor's block and LIB are retained on the hub's
-    chain (the cursor's LIB reference carries that block's number) and the hub's LIB has not fallen behind the
-    cursor's, the hub serves the cursor, and the burst takes the consumer that stood at the cursor — resting on the
-    cursor's LIB, holding the hub chain's blocks up to the cursor block — exactly onto the hub's own consumer state
-    `⟨LIB, P⟩`. Everything the hub delivers afterwards then continues the discipline (`C01`). -/
-theorem resume_new_cursor_on_hub_chain (s : FState) (P : List Id) (hI : Inv s P) (h : Blk) (seg : List Entry)
+/-- the run part: what the fast path of `blocksFromCursor` does to the consumer standing at a (non-Undo) position
+    `c.block.num` above `c.lib`, on any hub state satisfying the invariant -/
+theorem resume_run_on_hub_chain (s : FState) (P : List Id) (hI : Inv s P) (h : Blk) (seg : List Entry)
     (hs : headSegment s = some (h, seg)) (hnum : ∀ e, s.db.find h.id = some e → e.blk.num = h.num)
     (c : Cur) (hu : isUndo c = false)
     (el : Entry) (hel : el ∈ seg) (helid : el.blk.id = c.lib.id) (helnum : el.blk.num = c.lib.num)
-    (eb : Entry) (heb : eb ∈ seg) (hebid : eb.blk.id = c.block.id)
     (hcl : c.lib.num ≤ s.db.libRef.num) :
-    blocksFromCursor s 1 c = some (fastPath s h seg c) ∧
     (⟨c.lib.id, (seg.filter (fun e => decide (c.lib.num < e.blk.num) && decide (e.blk.num ≤ c.block.num))).map (·.blk.id)⟩ : CS).run
         (fastPath s h seg c) = some ⟨s.db.libRef.id, P⟩ := by
   obtain ⟨K, PE, hseg, hP, hPE, hK, hlast, hstored⟩ := headSegment_shape s P hI h seg hs hnum
@@ -549,31 +543,128 @@ theorem resume_new_cursor_on_hub_chain (s : FState) (P : List Id) (hI : Inv s P)
         unfold topOf
         rw [List.getLast?_map, hlastK]
         simpa using hid
-  refine ⟨?_, ?_⟩
-  · -- served by the fast path
-    cases hsg : seg with
-    | nil => rw [hsg] at hel; cases hel
-    | cons first rest =>
-      rw [hsg] at hs
-      have hfirst : ¬ c.lib.num < first.blk.num := by
-        have hp := List.pairwise_cons.mp (by rw [hsg] at hasc; exact hasc)
-        rw [hsg] at hel
-        rcases List.mem_cons.mp hel with rfl | h1
-        · omega
-        · have := hp.1 el h1; simp only [nE] at this; omega
-      have hb : blockIn c.block.id (first :: rest) = true := by
-        unfold blockIn
-        rw [← hsg]
-        exact List.any_eq_true.mpr ⟨eb, heb, by simp [hebid]⟩
-      have hl : blockIn c.lib.id (first :: rest) = true := by
-        unfold blockIn
-        rw [← hsg]
-        exact List.any_eq_true.mpr ⟨el, hel, by simp [helid]⟩
-      exact served_on_chain s 0 c h first rest hs hfirst hb hl
-  · rw [hheld, hfp, List.map_append]
-    have := hmain
-    rw [htop, hZ2, hP] at this
-    simpa [List.map_append] using this
+  rw [hheld, hfp, List.map_append]
+  have := hmain
+  rw [htop, hZ2, hP] at this
+  simpa [List.map_append] using this
+
+
+/-- a cursor whose block and LIB are retained on the hub's chain is served by the fast path -/
+theorem served_on_hub_chain (s : FState) (P : List Id) (hI : Inv s P) (h : Blk) (seg : List Entry)
+    (hs : headSegment s = some (h, seg)) (hnum : ∀ e, s.db.find h.id = some e → e.blk.num = h.num)
+    (c : Cur) (el : Entry) (hel : el ∈ seg) (helid : el.blk.id = c.lib.id) (helnum : el.blk.num = c.lib.num)
+    (eb : Entry) (heb : eb ∈ seg) (hebid : eb.blk.id = c.block.id) :
+    blocksFromCursor s 1 c = some (fastPath s h seg c) := by
+  obtain ⟨K, PE, hseg, hP, hPE, hK, hlast, hstored⟩ := headSegment_shape s P hI h seg hs hnum
+  have hasc : Asc nE seg := linkedE_ascending s.db hI.heights seg (headSegment_linked s h seg hs) hstored
+  cases hsg : seg with
+  | nil => rw [hsg] at hel; cases hel
+  | cons first rest =>
+    rw [hsg] at hs
+    have hfirst : ¬ c.lib.num < first.blk.num := by
+      have hp := List.pairwise_cons.mp (by rw [hsg] at hasc; exact hasc)
+      rw [hsg] at hel
+      rcases List.mem_cons.mp hel with rfl | h1
+      · omega
+      · have := hp.1 el h1; simp only [nE] at this; omega
+    have hb : blockIn c.block.id (first :: rest) = true := by
+      unfold blockIn
+      rw [← hsg]
+      exact List.any_eq_true.mpr ⟨eb, heb, by simp [hebid]⟩
+    have hl : blockIn c.lib.id (first :: rest) = true := by
+      unfold blockIn
+      rw [← hsg]
+      exact List.any_eq_true.mpr ⟨el, hel, by simp [helid]⟩
+    exact served_on_chain s 0 c h first rest hs hfirst hb hl
+
+/-- **Resuming from a New cursor on the hub's chain equals never having disconnected — for every hub state that
+    satisfies the forkable invariant** (pending chain `P`): when the cursor's block and LIB are retained on the hub's
+    chain (the cursor's LIB reference carries that block's number) and the hub's LIB has not fallen behind the
+    cursor's, the hub serves the cursor, and the burst takes the consumer that stood at the cursor — resting on the
+    cursor's LIB, holding the hub chain's blocks up to the cursor block — exactly onto the hub's own consumer state
+    `⟨LIB, P⟩`. Everything the hub delivers afterwards then continues the discipline (`C01`). -/
+theorem resume_new_cursor_on_hub_chain (s : FState) (P : List Id) (hI : Inv s P) (h : Blk) (seg : List Entry)
+    (hs : headSegment s = some (h, seg)) (hnum : ∀ e, s.db.find h.id = some e → e.blk.num = h.num)
+    (c : Cur) (hu : isUndo c = false)
+    (el : Entry) (hel : el ∈ seg) (helid : el.blk.id = c.lib.id) (helnum : el.blk.num = c.lib.num)
+    (eb : Entry) (heb : eb ∈ seg) (hebid : eb.blk.id = c.block.id)
+    (hcl : c.lib.num ≤ s.db.libRef.num) :
+    blocksFromCursor s 1 c = some (fastPath s h seg c) ∧
+    (⟨c.lib.id, (seg.filter (fun e => decide (c.lib.num < e.blk.num) && decide (e.blk.num ≤ c.block.num))).map (·.blk.id)⟩ : CS).run
+        (fastPath s h seg c) = some ⟨s.db.libRef.id, P⟩ :=
+  ⟨served_on_hub_chain s P hI h seg hs hnum c el hel helid helnum eb heb hebid,
+   resume_run_on_hub_chain s P hI h seg hs hnum c hu el hel helid helnum hcl⟩
+
+/-- **the same for an Undo cursor on the hub's chain** (the undone block has become canonical again): the consumer
+    stood *below* the cursor block — it holds the hub chain's blocks above the cursor LIB and below the cursor block —
+    and the burst, which delivers the cursor block again, takes it onto the hub's consumer state ⟨LIB, P⟩. (The fast path
+    treats an Undo cursor at height n exactly like a New cursor at height n − 1.) -/
+theorem resume_undo_cursor_on_hub_chain (s : FState) (P : List Id) (hI : Inv s P) (h : Blk) (seg : List Entry)
+    (hs : headSegment s = some (h, seg)) (hnum : ∀ e, s.db.find h.id = some e → e.blk.num = h.num)
+    (c : Cur) (hu : isUndo c = true) (hpos : 1 ≤ c.block.num)
+    (el : Entry) (hel : el ∈ seg) (helid : el.blk.id = c.lib.id) (helnum : el.blk.num = c.lib.num)
+    (eb : Entry) (heb : eb ∈ seg) (hebid : eb.blk.id = c.block.id)
+    (hcl : c.lib.num ≤ s.db.libRef.num) :
+    blocksFromCursor s 1 c = some (fastPath s h seg c) ∧
+    (⟨c.lib.id, (seg.filter (fun e => decide (c.lib.num < e.blk.num) && decide (e.blk.num < c.block.num))).map (·.blk.id)⟩ : CS).run
+        (fastPath s h seg c) = some ⟨s.db.libRef.id, P⟩ := by
+  refine ⟨served_on_hub_chain s P hI h seg hs hnum c el hel helid helnum eb heb hebid, ?_⟩
+  -- the New cursor one height below
+  let c' : Cur := ⟨.new, ⟨c.block.id, c.block.num - 1⟩, c.head, c.lib⟩
+  have hfp : fastPath s h seg c = fastPath s h seg c' := by
+    rw [fastPath_eq, fastPath_eq]
+    have hfun : fastEv s h c = fastEv s h c' := by
+      funext e
+      unfold fastEv
+      have hu' : isUndo c' = false := by simp [isUndo, c']
+      simp only [hu, hu', Bool.true_and, Bool.false_and, Bool.or_false, c']
+      have e1 : (decide (e.blk.num > c.block.num) || (e.blk.num == c.block.num)) = decide (e.blk.num > c.block.num - 1) := by
+        by_cases hgt : e.blk.num > c.block.num
+        · simp [hgt]; omega
+        · by_cases heq : e.blk.num = c.block.num
+          · simp [heq]; omega
+          · have : ¬ e.blk.num > c.block.num - 1 := by omega
+            simp [hgt, heq, this]
+      rw [e1]
+    rw [hfun]
+  have hfilter : seg.filter (fun e => decide (c.lib.num < e.blk.num) && decide (e.blk.num < c.block.num)) =
+      seg.filter (fun e => decide (c'.lib.num < e.blk.num) && decide (e.blk.num ≤ c'.block.num)) := by
+    apply List.filter_congr
+    intro e _
+    simp only [c']
+    have : (e.blk.num < c.block.num) ↔ (e.blk.num ≤ c.block.num - 1) := by omega
+    simp [this]
+  rw [hfp, hfilter]
+  exact resume_run_on_hub_chain s P hI h seg hs hnum c' (by simp [isUndo, c']) el hel helid helnum hcl
+
+/-- **… equals never having disconnected**: the burst, followed by everything the hub delivers afterwards for any later
+    history of blocks of one consistent block tree, is one sequence the consumer that stood at the cursor accepts; it
+    ends on the hub's chain and LIB as if it had stayed subscribed -/
+theorem resume_equals_never_disconnected (cfg : Forkable.Config) (hnew : cfg.matches .new = true)
+    (hundo : cfg.matches .undo = true) (hirr : cfg.matches .irreversible = true)
+    (U : Id → Option Blk) (hU : UOK U) (F : List Id) (s : FState) (P : List Id) (hI : Inv s P) (hJ : Inv2 U F s.db)
+    (h : Blk) (seg : List Entry) (hs : headSegment s = some (h, seg))
+    (hnum : ∀ e, s.db.find h.id = some e → e.blk.num = h.num)
+    (c : Cur) (hu : isUndo c = false)
+    (el : Entry) (hel : el ∈ seg) (helid : el.blk.id = c.lib.id) (helnum : el.blk.num = c.lib.num)
+    (eb : Entry) (heb : eb ∈ seg) (hebid : eb.blk.id = c.block.id) (hcl : c.lib.num ≤ s.db.libRef.num)
+    (hist : List Blk) (hin : ∀ b ∈ hist, U b.id = some b) (hL : Props.C01.LibHistOK cfg s hist) :
+    ∃ burst P', blocksFromCursor s 1 c = some burst ∧
+      (⟨c.lib.id, (seg.filter (fun e => decide (c.lib.num < e.blk.num) && decide (e.blk.num ≤ c.block.num))).map (·.blk.id)⟩ : CS).run
+          (burst ++ (runHistory cfg s hist).2) = some ⟨(runHistory cfg s hist).1.db.libRef.id, P'⟩ ∧
+      Inv (runHistory cfg s hist).1 P' := by
+  obtain ⟨h1, h2⟩ := resume_new_cursor_on_hub_chain s P hI h seg hs hnum c hu el hel helid helnum eb heb hebid hcl
+  have hsent : s.lastSent.isSome = true := by
+    unfold headSegment at hs
+    split at hs
+    · cases hs
+    · cases hl : s.lastSent with
+      | none => rw [hl] at hs; cases hs
+      | some l => rfl
+  obtain ⟨P', hrun, hI'⟩ := Props.C01.history_discipline_consistent cfg hnew hundo hirr U hU hist F s P hI hJ hin hL (Or.inr hsent)
+  refine ⟨_, P', h1, ?_, hI'⟩
+  rw [run_append, h2]
+  exact hrun
 
 end StateLevel
 
